@@ -35,6 +35,37 @@ pub struct Unit {
     /// collected before them must survive when the decorated item itself is absent
     #[serde(default)]
     pub shell_deco: bool,
+    /// named items sit in `group_help` groups whose title is 1: empty, 2: blank - a group without
+    /// a heading is still a group of ordinary items
+    #[serde(default)]
+    pub untitled_groups: u8,
+}
+
+fn untitled(p: &mut P, title: &str) {
+    fn has_cmd_or_pos(p: &P) -> bool {
+        if matches!(p, P::Cmd { .. } | P::Pos { .. }) {
+            return true;
+        }
+        let mut r = false;
+        p.children(&mut |c| r |= has_cmd_or_pos(c));
+        r
+    }
+    match p {
+        P::Cmd { inner, .. } => untitled(&mut inner.p, title),
+        P::Seq(v) => {
+            for x in v.iter_mut() {
+                if has_cmd_or_pos(x) {
+                    untitled(x, title);
+                } else {
+                    let me = x.clone();
+                    *x = P::GroupHelp(me.bx(), DocSpec::plain(title));
+                }
+            }
+        }
+        P::Alt(v) | P::Choice(v) => v.iter_mut().for_each(|x| untitled(x, title)),
+        P::Optional(x, _) | P::Many(x, _) | P::Some_(x, _) | P::Fallback(x, _, _) | P::FallbackWith(x, _) | P::Hide(x) | P::Map(x, _) => untitled(x, title),
+        _ => {}
+    }
 }
 
 fn add_shell(p: &mut P) {
@@ -117,6 +148,9 @@ pub fn build_unit(u: &Unit) -> Opts {
     }
     if u.decor != 0 || !u.hidden_cmds.is_empty() {
         decorate(&mut o.p, u.decor, &u.hidden_cmds);
+    }
+    if u.untitled_groups != 0 {
+        untitled(&mut o.p, if u.untitled_groups == 1 { "" } else { "  " });
     }
     if u.fallback_with {
         // `fallback_with(|| Ok(v))` is the same parser as `fallback(v)`
@@ -552,6 +586,82 @@ fn run_altpos(in_cmd: bool, unit: &Value, only: Option<&[Tok]>, ctx: &mut Ctx) {
     }
 }
 
+// ------------------------------------------------------------------------------------------
+// an optional adjacent group (--point -x X) among ordinary switches: once a complete line has
+// been typed (the group written out in full or not at all), every ordinary name that is not
+// given yet and extends the typed word is offered, whatever the line ends in
+// ------------------------------------------------------------------------------------------
+fn adjgroup_opts(in_cmd: bool) -> Opts {
+    let group = P::Adj(vec![P::ReqFlag(Names::long("point")), P::Arg { names: Names::short('x'), ty: Ty::Os, adjacent: false, metavar: "X".into() }]).opt();
+    let level = Opts::new(P::Seq(vec![P::Switch(Names::long("verbose")), P::Switch(Names::long("alpha")), group]));
+    if in_cmd {
+        Opts::new(P::Seq(vec![P::Switch(Names::short('q')), P::cmd("sub", level)]))
+    } else {
+        level
+    }
+}
+
+fn run_adjgroup(in_cmd: bool, unit: &Value, only: Option<&[Tok]>, ctx: &mut Ctx) {
+    let p = match build_checked(&adjgroup_opts(in_cmd)) {
+        Ok(p) => p,
+        Err(_) => return,
+    };
+    let alpha: Vec<Tok> = ["--verbose", "--alpha", "--point", "-x", "1", "-x=1"].iter().map(|s| Tok::s(s)).collect();
+    let head: Vec<Tok> = if in_cmd { vec![Tok::s("sub")] } else { vec![] };
+    tree(&alpha, 4, &mut |pre| {
+        let mut line = head.clone();
+        line.extend(pre.iter().cloned());
+        // only complete lines: the typed part parses on its own
+        if !matches!(run(&p, &line), Outcome::Value(_)) {
+            return true;
+        }
+        for typed in ["", "-", "--", "--a", "--al", "--alpha", "--v", "--verb"] {
+            let mut argv = line.clone();
+            argv.push(Tok::s(typed));
+            if let Some(o) = only {
+                if o != argv.as_slice() {
+                    continue;
+                }
+            }
+            ctx.begin_case(|| json!({"argv": argv}));
+            ctx.s.evaluations += 1;
+            ctx.s.states += 1;
+            let text = match run_comp(&p, &argv, 0, None) {
+                Outcome::Completion(t) => t,
+                o => {
+                    let mut sig = BTreeMap::new();
+                    sig.insert("clause".to_string(), "always-completion-output".to_string());
+                    ctx.violation(Violation { property: "C14".into(), rule: "always-completion-output".into(), sig, unit: unit.clone(), case: json!({"argv": argv}), expected: "completion output".into(), observed: o.brief(), size: argv.len() * 1000 });
+                    continue;
+                }
+            };
+            let rows = parse_rows(&text, typed);
+            let mut missing = vec![];
+            for name in ["--verbose", "--alpha"] {
+                let given = pre.iter().any(|t| t.lossy() == name);
+                if given || !name.starts_with(typed) {
+                    continue;
+                }
+                let offered = rows.substs.iter().any(|s| s == name) || (typed == name && (rows.echo_only || rows.substs.is_empty()));
+                if !offered {
+                    missing.push(name);
+                }
+            }
+            if missing.is_empty() {
+                ctx.count("lines-around-an-adjacent-group-judged");
+                ctx.s.nontrivial += 1;
+                ctx.s.validated += 1;
+            } else {
+                let mut sig = BTreeMap::new();
+                sig.insert("clause".to_string(), "every-applicable-visible-name-offered".to_string());
+                sig.insert("def".to_string(), if in_cmd { "switches beside an optional adjacent group, inside a command" } else { "switches beside an optional adjacent group" }.to_string());
+                ctx.violation(Violation { property: "C14".into(), rule: "every-applicable-visible-name-offered".into(), sig, unit: unit.clone(), case: json!({"argv": argv}), expected: format!("{} offered (visible, matches, not given)", missing.join(", ")), observed: text.chars().take(300).collect(), size: argv.len() * 1000 });
+            }
+        }
+        true
+    });
+}
+
 impl Check for C14 {
     fn id(&self) -> &'static str {
         "C14"
@@ -585,16 +695,18 @@ impl Check for C14 {
                 Tail::Cmds { cmds, .. } if j % 5 == 0 => vec![cmds[(j / 5) % cmds.len()].name.clone()],
                 _ => vec![],
             };
-            out.push(serde_json::to_value(Unit { level: l, len: tier.pick(2, 3), completers, fallback_with: j % 4 == 1, decor: if j % 4 == 2 { 0 } else { (j % 3) as u8 }, hidden_cmds, completer_outer: j % 4 == 2, shell_deco: j % 6 == 1 }).unwrap());
+            out.push(serde_json::to_value(Unit { level: l, len: tier.pick(2, 3), completers, fallback_with: j % 4 == 1, decor: if j % 4 == 2 { 0 } else { (j % 3) as u8 }, hidden_cmds, completer_outer: j % 4 == 2, shell_deco: j % 6 == 1, untitled_groups: if j % 7 == 3 { 1 } else if j % 7 == 5 { 2 } else { 0 } }).unwrap());
         }
         // non-ASCII short and long names
         for k1 in [Kind::Switch, Kind::ArgOpt, Kind::Count] {
             for k2 in [Kind::ArgReq, Kind::ReqFlag] {
                 let a = Named { names: Names::both('ä', "änderung"), kind: k1, hidden: false, ty: Ty::Os, adjacent: false, guarded: false };
                 let b = Named { names: Names::short('ß'), kind: k2, hidden: false, ty: Ty::Os, adjacent: false, guarded: false };
-                out.push(serde_json::to_value(Unit { level: fam::leaf(vec![a, b], Tail::None), len: tier.pick(2, 3), completers: vec![], fallback_with: false, decor: 0, hidden_cmds: vec![], completer_outer: false, shell_deco: false }).unwrap());
+                out.push(serde_json::to_value(Unit { level: fam::leaf(vec![a, b], Tail::None), len: tier.pick(2, 3), completers: vec![], fallback_with: false, decor: 0, hidden_cmds: vec![], completer_outer: false, shell_deco: false, untitled_groups: 0 }).unwrap());
             }
         }
+        out.push(json!({"adjgroup": false}));
+        out.push(json!({"adjgroup": true}));
         out.push(json!({"altpos": false}));
         out.push(json!({"altpos": true}));
         out
@@ -602,6 +714,10 @@ impl Check for C14 {
     fn run_unit(&self, unit: &Value, ctx: &mut Ctx) {
         if let Some(b) = unit.get("altpos") {
             run_altpos(b.as_bool() == Some(true), unit, None, ctx);
+            return;
+        }
+        if let Some(b) = unit.get("adjgroup") {
+            run_adjgroup(b.as_bool() == Some(true), unit, None, ctx);
             return;
         }
         let u: Unit = serde_json::from_value(unit.clone()).unwrap();
@@ -662,6 +778,11 @@ impl Check for C14 {
         if let Some(b) = unit.get("altpos") {
             let argv: Vec<Tok> = serde_json::from_value(case["argv"].clone()).unwrap_or_default();
             run_altpos(b.as_bool() == Some(true), unit, Some(&argv), ctx);
+            return;
+        }
+        if let Some(b) = unit.get("adjgroup") {
+            let argv: Vec<Tok> = serde_json::from_value(case["argv"].clone()).unwrap_or_default();
+            run_adjgroup(b.as_bool() == Some(true), unit, Some(&argv), ctx);
             return;
         }
         let u: Unit = serde_json::from_value(unit.clone()).unwrap();
